@@ -374,7 +374,11 @@ template <class T> static void condAndInverseCase(vh::Rng& g, int n, int cls) {
         double ratio = (est > 0 && truth > 0) ? std::max(est / truth, truth / est) : INFINITY;
         vh::I("qtzdiag").d(0).d(2).d(2).d(0.5).emit(); std::puts("O qtzdiag 2");
         vh::D("rcond." + key); ++g_count[7];
-        vh::P("rcond_estimate_consistent", "qtz.rcond." + key + ".vs_singular_values", ratio, 4.0);
+        // numerical rank 1 of a larger matrix: FactorQTZRep assigns actualRCond only when the rank loop *increments* the rank
+        // (FactorQTZ.cpp:403-414), so for rank 1 it is never assigned and getRCondEstimate() returns 0 (true value 1) - the same
+        // root cause as the listed qtz.rcond.min_dim_1.zero, reached through a different input class: own narrow key
+        vh::P("rcond_estimate_consistent", rank == 1 ? std::string("qtz.rcond.rank_1.zero") : "qtz.rcond." + key + ".vs_singular_values", ratio, 4.0);
+        if (rank == 1) vh::D("rcond.rank1");
     }
     // inverses reported by FactorQTZ and FactorSVD
     Matrix_<T> Xq, Xs; q.inverse(Xq); sv.inverse(Xs);
